@@ -1,9 +1,14 @@
 // C19 harness (V part): orthogonal routing + OrthoPlanariser::planarise on graphs with given node boxes.
 // Pipeline of libdialect/tests/planarise01.cpp, planarise02.cpp and hola.cpp:209-220:
 //     LeaflessOrthoRouter lor(G, opts); lor.route();   OrthoPlanariser op(G); P = op.planarise();
-// Input:  "P <n> <router 0=LeaflessOrthoRouter 1=RoutingAdapter(OrthogonalRouting)> <bufferScalar*1000>" starts a graph
-//         with nodes 0..n-1, "n <i> <cx> <cy> <w> <h>" places node i, "e <a> <b>" adds an edge.
+// Input:  "P <n> <router 0=LeaflessOrthoRouter 1=RoutingAdapter(OrthogonalRouting) 2=explicit routes> <bufferScalar*1000> [<rounds>]"
+//         starts a graph with nodes 0..n-1, "n <i> <cx> <cy> <w> <h>" places node i, "e <a> <b>" adds an edge.
 //         With router 0 every node needs degree >= 2 (the router asserts it).
+//         rounds = 2: a SECOND round on the SAME Graph object (layout changed, re-route, re-planarise): "m <i> <cx> <cy>" = Node::setCentre
+//         of node i before round 2; the edges are then routed again (router 0/1: a fresh router object of the same kind, which records the
+//         routes with Edge::setRoute as in round 1; router 2: Edge::setRoute of the explicit routes "r <round> <edge index> <k> x1 y1 .. xk yk")
+//         and a fresh OrthoPlanariser(G) planarises the same Graph again.  Round 2 output follows a line "ROUND 2" in the same format
+//         (plus "O <i> <cx> <cy>": the node centres in force in round 2).
 // Output per graph (node names: originals keep 0..n-1; nodes created by the planariser are n, n+1, ... in id order):
 //   ## <k>
 //   R <a> <b> <m> x1 y1 ... xm ym     the orthogonal route recorded in the edge a-b (input of the planariser)
@@ -37,8 +42,50 @@
 using namespace dialect;
 typedef std::pair<int, int> E;
 struct NodeIn { double cx, cy, w, h; };
+struct RouteIn { int round, edge; std::vector<Avoid::Point> pts; };
+struct MoveIn { int node; double cx, cy; };
+struct Extra { int rounds; std::vector<MoveIn> moves; std::vector<RouteIn> routes; Extra() : rounds(1) {} };
 
-static void runGraph(int k, int n, int routerKind, double bufScalar, const std::vector<NodeIn> &ns, const std::vector<E> &edges)
+static void routeGraph(Graph_SP G, int routerKind, double bufScalar, int round, const std::vector<Edge_SP> &es, const Extra &x)
+{
+    HolaOpts opts;
+    if (routerKind == 0) {
+        LeaflessOrthoRouter lor(G, opts);
+        if (bufScalar > 0) lor.setShapeBufferDistanceIELScalar(bufScalar);
+        lor.route();
+    } else if (routerKind == 1) {
+        RoutingAdapter ra(Avoid::OrthogonalRouting);
+        ra.router.setRoutingOption(Avoid::nudgeSharedPathsWithCommonEndPoint, false);
+        ra.router.setRoutingParameter(Avoid::crossingPenalty, opts.routingScalar_crossingPenalty * G->getIEL());
+        ra.router.setRoutingParameter(Avoid::segmentPenalty, opts.routingScalar_segmentPenalty * G->getIEL());
+        if (bufScalar > 0) ra.router.setRoutingParameter(Avoid::shapeBufferDistance, bufScalar * G->getIEL());
+        ra.addNodes(G->getNodeLookup());
+        ra.addEdges(G->getEdgeLookup());
+        ra.route(RouteProcessing::REFINE_AND_RECORD);
+    } else {
+        for (auto &r : x.routes) if (r.round == round && r.edge >= 0 && r.edge < (int) es.size()) es[r.edge]->setRoute(r.pts);
+    }
+}
+
+static void planariseAndPrint(Graph_SP G, int n, const std::map<id_type, int> &name0)
+{
+    std::map<id_type, int> name(name0);
+    OrthoPlanariser op(G);
+    Graph_SP P = op.planarise();
+    int next = n;
+    for (auto &p : P->getNodeLookup()) if (!name.count(p.first)) name[p.first] = next++;
+    for (auto &p : P->getNodeLookup()) {
+        Avoid::Point c = p.second->getCentre();
+        int nm = name.at(p.first);
+        printf("N %d %.17g %.17g %d\n", nm, c.x, c.y, nm < n ? 1 : 0);
+    }
+    for (auto &p : P->getEdgeLookup()) {
+        auto ends = p.second->getEndIds();
+        printf("E %d %d\n", name.at(ends.first), name.at(ends.second));
+    }
+}
+
+static void runGraph(int k, int n, int routerKind, double bufScalar, const std::vector<NodeIn> &ns, const std::vector<E> &edges, const Extra &x)
 {
     printf("## %d\n", k);
     fflush(stdout);
@@ -53,41 +100,24 @@ static void runGraph(int k, int n, int routerKind, double bufScalar, const std::
         }
         std::vector<Edge_SP> es;
         for (auto e : edges) es.push_back(G->addEdge(nodes[e.first], nodes[e.second]));
-        HolaOpts opts;
-        if (routerKind == 0) {
-            LeaflessOrthoRouter lor(G, opts);
-            if (bufScalar > 0) lor.setShapeBufferDistanceIELScalar(bufScalar);
-            lor.route();
-        } else {
-            RoutingAdapter ra(Avoid::OrthogonalRouting);
-            ra.router.setRoutingOption(Avoid::nudgeSharedPathsWithCommonEndPoint, false);
-            ra.router.setRoutingParameter(Avoid::crossingPenalty, opts.routingScalar_crossingPenalty * G->getIEL());
-            ra.router.setRoutingParameter(Avoid::segmentPenalty, opts.routingScalar_segmentPenalty * G->getIEL());
-            if (bufScalar > 0) ra.router.setRoutingParameter(Avoid::shapeBufferDistance, bufScalar * G->getIEL());
-            ra.addNodes(G->getNodeLookup());
-            ra.addEdges(G->getEdgeLookup());
-            ra.route(RouteProcessing::REFINE_AND_RECORD);
-        }
-        for (size_t i = 0; i < es.size(); i++) {
-            std::vector<Avoid::Point> r = es[i]->getRoute();
-            printf("R %d %d %zu", edges[i].first, edges[i].second, r.size());
-            for (auto &p : r) printf(" %.17g %.17g", p.x, p.y);
-            printf("\n");
-        }
-        fflush(stdout);
-        stage = "EXC";
-        OrthoPlanariser op(G);
-        Graph_SP P = op.planarise();
-        int next = n;
-        for (auto &p : P->getNodeLookup()) if (!name.count(p.first)) name[p.first] = next++;
-        for (auto &p : P->getNodeLookup()) {
-            Avoid::Point c = p.second->getCentre();
-            int nm = name.at(p.first);
-            printf("N %d %.17g %.17g %d\n", nm, c.x, c.y, nm < n ? 1 : 0);
-        }
-        for (auto &p : P->getEdgeLookup()) {
-            auto ends = p.second->getEndIds();
-            printf("E %d %d\n", name.at(ends.first), name.at(ends.second));
+        for (int round = 1; round <= x.rounds; ++round) {
+            stage = "EXC-ROUTE";
+            if (round > 1) {
+                printf("ROUND %d\n", round);
+                for (auto &m : x.moves) if (m.node >= 0 && m.node < n) nodes[m.node]->setCentre(m.cx, m.cy);
+                for (int i = 0; i < n; i++) { Avoid::Point c = nodes[i]->getCentre(); printf("O %d %.17g %.17g\n", i, c.x, c.y); }
+            }
+            routeGraph(G, routerKind, bufScalar, round, es, x);
+            for (size_t i = 0; i < es.size(); i++) {
+                std::vector<Avoid::Point> r = es[i]->getRoute();
+                printf("R %d %d %zu", edges[i].first, edges[i].second, r.size());
+                for (auto &p : r) printf(" %.17g %.17g", p.x, p.y);
+                printf("\n");
+            }
+            fflush(stdout);
+            stage = "EXC";
+            planariseAndPrint(G, n, name);
+            fflush(stdout);
         }
     } catch (std::exception &e) {
         std::string w = e.what();
@@ -105,12 +135,12 @@ static void runGraph(int k, int n, int routerKind, double bufScalar, const std::
 
 // run one graph in a child process so that a crash inside the libraries (e.g. SIGSEGV in libavoid's nudging) is
 // reported for that graph only
-static void runGraphForked(int k, int n, int routerKind, double bufScalar, const std::vector<NodeIn> &ns, const std::vector<E> &edges)
+static void runGraphForked(int k, int n, int routerKind, double bufScalar, const std::vector<NodeIn> &ns, const std::vector<E> &edges, const Extra &x)
 {
     fflush(stdout);
     pid_t pid = fork();
-    if (pid == 0) { runGraph(k, n, routerKind, bufScalar, ns, edges); fflush(stdout); _exit(0); }
-    if (pid < 0) { runGraph(k, n, routerKind, bufScalar, ns, edges); return; }
+    if (pid == 0) { runGraph(k, n, routerKind, bufScalar, ns, edges, x); fflush(stdout); _exit(0); }
+    if (pid < 0) { runGraph(k, n, routerKind, bufScalar, ns, edges, x); return; }
     int status = 0;
     waitpid(pid, &status, 0);
     if (WIFSIGNALED(status)) printf("CRASH %d\n", WTERMSIG(status));
@@ -124,17 +154,23 @@ int main(int argc, char **argv)
     std::ifstream in(argv[1]);
     std::string line;
     int k = 0, n = -1, rk = 0; double buf = 0;
-    std::vector<NodeIn> ns; std::vector<E> edges;
+    std::vector<NodeIn> ns; std::vector<E> edges; Extra x;
     while (std::getline(in, line)) {
         std::istringstream is(line);
         std::string op; is >> op;
         if (op == "P") {
-            if (n >= 0) runGraphForked(k++, n, rk, buf, ns, edges);
+            if (n >= 0) runGraphForked(k++, n, rk, buf, ns, edges, x);
             int b; is >> n >> rk >> b; buf = b / 1000.0;
+            x = Extra(); int rounds = 1; if (is >> rounds) x.rounds = rounds;
             ns.assign(n, NodeIn{0, 0, 30, 30}); edges.clear();
+        } else if (op == "m") { MoveIn m; is >> m.node >> m.cx >> m.cy; x.moves.push_back(m); }
+        else if (op == "r") {
+            RouteIn r; size_t cnt = 0; is >> r.round >> r.edge >> cnt;
+            for (size_t j = 0; j < cnt; j++) { double px, py; is >> px >> py; r.pts.push_back(Avoid::Point(px, py)); }
+            x.routes.push_back(r);
         } else if (op == "n") { int i; NodeIn v; is >> i >> v.cx >> v.cy >> v.w >> v.h; if (i >= 0 && i < n) ns[i] = v; }
         else if (op == "e") { int a, b; is >> a >> b; edges.push_back(E(a, b)); }
     }
-    if (n >= 0) runGraphForked(k++, n, rk, buf, ns, edges);
+    if (n >= 0) runGraphForked(k++, n, rk, buf, ns, edges, x);
     return 0;
 }
